@@ -101,7 +101,10 @@ Record endpoint := mke {
 (* HTTPFileServerExpr.RequestPaths after Finalize *)
 Record fileserver := mkf { fpaths : list path }.
 
-Record service := mks { endpoints : list endpoint; files : list fileserver }.
+(* sabs: the service's own HTTP path is absolute (Path("//...")): HTTPServiceExpr.FullPaths
+   then ignores the API base path *)
+Record service := mksa { endpoints : list endpoint; files : list fileserver; sabs : bool }.
+Definition mks (e : list endpoint) (f : list fileserver) : service := mksa e f false.
 (* api_base: the API level HTTP Path(...) *)
 Record design := mkd { services : list service; api_reqs : list (list N); api_base : path }.
 
@@ -237,12 +240,12 @@ Definition doc_ops (m : list (dkey * opd)) : list op :=
    everything; both builders skip what is marked (openapi.MustGenerate). *)
 Record mendpoint := mkme { me_ep : endpoint; me_gen : bool }.
 Record mfile := mkmf { mf_fs : fileserver; mf_gen : bool }.
-Record mservice := mkms { ms_eps : list mendpoint; ms_files : list mfile; ms_gen : bool }.
+Record mservice := mkms { ms_eps : list mendpoint; ms_files : list mfile; ms_gen : bool; ms_abs : bool }.
 Record mdesign := mkmd { md_services : list mservice; md_reqs : list (list N); md_base : path }.
 
 Definition sel_service (keep : bool -> bool -> bool) (s : mservice) : service :=
-  mks (map me_ep (filter (fun e => keep (ms_gen s) (me_gen e)) (ms_eps s)))
-      (map mf_fs (filter (fun f => keep (ms_gen s) (mf_gen f)) (ms_files s))).
+  mksa (map me_ep (filter (fun e => keep (ms_gen s) (me_gen e)) (ms_eps s)))
+       (map mf_fs (filter (fun f => keep (ms_gen s) (mf_gen f)) (ms_files s))) (ms_abs s).
 
 (* what the server mounts: everything *)
 Definition mounted (m : mdesign) : design :=
@@ -256,9 +259,10 @@ Definition hidden (m : mdesign) : design :=
 
 (* ---- OpenAPI 2: basePath and path keys ---- *)
 
-(* v2 hasAbsoluteRoutes: some documented route is absolute, or a documented file server exists *)
+(* v2 hasAbsoluteRoutes: some documented route is absolute or belongs to a service whose own
+   path is absolute, or a documented file server exists *)
 Definition has_abs (d : design) : bool :=
-  existsb (fun s => existsb (fun e => existsb rabs (routes e)) (endpoints s)) (services d).
+  existsb (fun s => existsb (fun e => existsb rabs (routes e) || sabs s) (endpoints s)) (services d).
 Definition has_files (d : design) : bool :=
   existsb (fun s => match svc_files s with [] => false | _ => true end) (services d).
 
